@@ -145,6 +145,7 @@ class Check:
         self.partial: list[str] = []
         self.known = load_known(prop)
         self.lines_out: list[str] = []
+        self.escalated = False
 
     # ------------------------------------------------------------------ leg P
     def write_gen(self, name: str, text: str):
@@ -241,6 +242,37 @@ class Check:
                     self.p_errors.append({"kind": "forbidden", "theorem": os.path.relpath(path, LEAN_DIR),
                                           "message": f"forbidden token {m.group(0)!r}"})
         return not self.p_errors
+
+    # ------------------------------------------------------------------ pins (DESIGN 3.1)
+    def pins_changed(self, pins):
+        """pins: list of (path relative to the repository, qualified name like 'Class.method' or 'function').
+        Compares the normalised-AST hash of each hand-modelled function with gen/pins.json (recorded on the
+        tree the model was written for; `tools/mkpins.py` rewrites it). A changed hash is NOT a verdict: it
+        only tells the property module to escalate (self.escalated = True -> use thorough sizes and the
+        large-size streams even in the quick tier), because the hand-written model may now be stale."""
+        import ast
+        try:
+            recorded = json.load(open(os.path.join(VERIF, "gen", "pins.json")))
+        except Exception:
+            recorded = {}
+        changed = []
+        for rel, qual in pins:
+            key = f"{rel}::{qual}"
+            try:
+                tree = ast.parse(open(os.path.join(REPO, rel)).read())
+                node = tree
+                for part in qual.split("."):
+                    node = next(n for n in ast.walk(node) if isinstance(n, (ast.FunctionDef, ast.ClassDef, ast.AsyncFunctionDef)) and n.name == part)
+                h = sha(ast.dump(node, include_attributes=False))
+            except Exception as e:  # noqa
+                h = "missing:" + type(e).__name__
+            if recorded.get(key) != h:
+                changed.append(key)
+            self.dist.setdefault("pins", {})[key] = h
+        if changed:
+            self.escalated = True
+            self.notes.append("modelled functions changed since the model was written (escalated search): " + ", ".join(changed))
+        return changed
 
     # ------------------------------------------------------------------ leg T
     def compare(self, stream: str, requests, real, model, limit=5):
